@@ -512,6 +512,128 @@ def new_mem_stats():
             "write_after_identity_then_rdcopy": 0}
 
 
+# ------------------------------------------------------------------------------- jump destinations / stack bounds (EvmJump)
+JKEYS = ["class", "stor", "path"]
+
+
+def export_jump_programs(ctx, timeout=900):
+    r = ctx.tlc("exec", "MC_EvmJump", cfg="MC_EvmJump.cfg", workers=4, timeout=timeout, label="byte programs (jump / stack)")
+    if r.timeout:
+        raise Infra("TLC timed out enumerating jump programs")
+    if r.invariant or r.error:
+        raise Infra("spec-level counterexample or TLC error in MC_EvmJump: %s\n%s" % (r.invariant or r.error, r.out[-3000:]))
+    pre = '<<"JMP", "'
+    behs = [line[len(pre):-3].replace('\\"', '"').replace('\\\\', '\\') for line in r.out.splitlines()
+            if line.startswith(pre) and line.endswith('">>')]
+    r.out = r.out[-4000:]
+    if not behs:
+        raise Infra("no programs exported by MC_EvmJump:\n" + r.out)
+    ctx.log("TLC MC_EvmJump: %d byte programs (%d distinct states, %.1fs, exhaustive)" % (len(behs), r.distinct, r.wall))
+    return behs, r
+
+
+def _run_jump(ctx, codes, label):
+    binp = build(ctx, "evmframes")
+    d = ctx.tmp("jump-" + label)
+    inp, outp = os.path.join(d, "behs.ndjson"), os.path.join(d, "obs.ndjson")
+    with open(inp, "w") as f:
+        for i, c in enumerate(codes):
+            f.write(json.dumps({"id": i, "code": c}) + "\n")
+    rc, o = ctx.run([binp, "-jump", "-in", inp, "-out", outp], timeout=1800)
+    if rc == 3:
+        raise Infra("evmframes -jump harness error: " + o[-1500:])
+    if rc != 0:
+        if rc is not None and ("panic:" in o or "goroutine " in o):
+            rp = ctx.save_replay("jumpdest-panic-%s.txt" % label, o[-20000:])
+            ctx.report("jumpdest:panic", "real code panicked in evmframes -jump (%s): %s" % (label, o.strip().splitlines()[0:3]), rp)
+            return None
+        raise Infra("evmframes -jump failed rc=%s: %s" % (rc, o[-2000:]))
+    return outp
+
+
+def compare_jump(b, obs):
+    runs = obs["runs"]
+    for k, run in enumerate(runs):
+        if "error" in run:
+            return "jumpdest:runtime-error", "runtime reported an error (panic in vm/state): %s" % run["error"]
+    exp = {k: b["exp"][k] for k in JKEYS}
+    for k, run in enumerate(runs):
+        got = {x: run.get(x) for x in JKEYS}
+        if got != exp:
+            if k == 1 and {x: runs[0].get(x) for x in JKEYS} == exp:
+                return "jumpdest:cache", ("the second execution of the same code (jump-destination bitmap from the cache) differs from the "
+                                          "first: expected %s, observed %s" % (json.dumps(exp), json.dumps(got)))
+            diff = [x for x in JKEYS if got[x] != exp[x]]
+            return "jumpdest:" + diff[0], "real interpreter differs from the reference in %s (run %d): expected %s, observed %s" % (
+                ",".join(diff), k + 1, json.dumps(exp), json.dumps(got))
+    return None, None
+
+
+def replay_jump_programs(ctx, raw_behs, label, stats):
+    behs = [json.loads(s) for s in raw_behs]
+    outp = _run_jump(ctx, [b["code"] for b in behs], label)
+    if outp is None:
+        return
+    obs = read_ndjson(outp)
+    if len(obs) != len(behs):
+        raise Infra("evmframes -jump returned %d outcomes for %d programs" % (len(obs), len(behs)))
+    found = {}
+    for b, o in zip(behs, obs):
+        stats["replayed"] += 1
+        sig, what = compare_jump(b, o)
+        if sig is None:
+            stats["conform"] += 1
+            m = b["meta"]
+            if m["fam"] == "stack":
+                stats["stack"] += 1
+            else:
+                if m["target"] == "imm" and b["exp"]["class"] == "badjump":
+                    stats["jump_into_immediate"] += 1
+                    bnd = [x for x in (8, 16, 24, 32, 64) if m["p"] < x <= m["p"] + m["n"]]
+                    if bnd:
+                        stats["immediate_straddles_boundary"] += 1
+                if m["trunc"]:
+                    stats["truncated_push"] += 1
+            if stats["conform"] % 1511 == 5:
+                ctx.sample({"byte_program": b["code"], "meta": m, "outcome_spec_and_real_interpreter_both_runs": b["exp"]}, limit=9)
+            continue
+        ent = found.setdefault(sig, {"n": 0, "first": None})
+        ent["n"] += 1
+        if ent["first"] is None:
+            ent["first"] = (b, o, what)
+    for sig, ent in sorted(found.items()):
+        b, o, what = ent["first"]
+        rp = ctx.save_replay("jumpdest-%s-%s.json" % (label, sig.replace(":", "-")),
+                             {"kind": "jump", "signature": sig, "programs_with_this_signature": ent["n"], "what": what,
+                              "behaviour": b, "observed": o})
+        ctx.report(sig, "%s: %s (%d programs); first: %s code=%s" % (sig, what, ent["n"], json.dumps(b["meta"]), json.dumps(b["code"])), rp)
+
+
+def jump_binding_demo(ctx, raw_behs):
+    pick = None
+    for s in raw_behs:
+        b = json.loads(s)
+        if b["meta"]["fam"] == "straddle" and b["exp"]["class"] == "badjump" and b["meta"]["n"] == 13:
+            pick = b
+            break
+    if pick is None:
+        raise Infra("binding demo: no jump program found")
+    b1 = json.loads(json.dumps(pick))
+    b1["exp"]["class"] = "ok"
+    b2 = json.loads(json.dumps(pick))
+    b2["exp"]["path"] = b2["exp"]["path"] + [b2["exp"]["path"][-1] + 7]
+    outp = _run_jump(ctx, [pick["code"]] * 3, "demo")
+    obs = read_ndjson(outp)
+    r0, r1, r2 = compare_jump(pick, obs[0]), compare_jump(b1, obs[1]), compare_jump(b2, obs[2])
+    if r0[0] is not None or r1[0] != "jumpdest:class" or r2[0] != "jumpdest:path":
+        raise Infra("binding demonstration failed for jump programs: %s %s %s" % (r0, r1, r2))
+    return "jump: altered expected halt class and altered executed path reported as mismatch, unaltered behaviour conforms"
+
+
+def new_jump_stats():
+    return {"replayed": 0, "conform": 0, "stack": 0, "jump_into_immediate": 0, "immediate_straddles_boundary": 0, "truncated_push": 0}
+
+
 def replay_artefact(ctx, path):
     """--replay <artefact>: re-run one saved case."""
     art = json.load(open(path))
@@ -529,6 +651,13 @@ def replay_artefact(ctx, path):
         ctx.cov["distinct_nontrivial"] = st["nontrivial"]
         ctx.cov["rule"] = "replay of one saved memory / return data program"
         ctx.sample(art["behaviour"]["prog"])
+    elif art.get("kind") == "jump":
+        st = new_jump_stats()
+        replay_jump_programs(ctx, [json.dumps(art["behaviour"])], "replay", st)
+        ctx.cov["evaluations"] = 1
+        ctx.cov["distinct_nontrivial"] = st["conform"]
+        ctx.cov["rule"] = "replay of one saved byte program (jump destinations / stack bounds)"
+        ctx.sample(art["behaviour"]["code"])
     elif art.get("kind") == "words":
         binp = build(ctx, "evmwords")
         d = ctx.tmp("words-replay")
